@@ -17,6 +17,9 @@ KEYSETS = {
     "prefix": [["a"], ["a", "b"], ["a", "b", "c"], ["a", "c"], ["b"]],
     "empty-levels": [["a"], ["a", ""], ["a", "", "b"], ["", "a"], ["", ""]],
     "deep": [["x", "y", "z", "w"], ["x", "y"], ["x"], ["x", "y", "z"], ["x", "q"]],
+    # round 8: a level is a string like any other - also one that starts with '$' (only a FIRST level that starts with '$' is special
+    # to MQTT's wildcards, and the stores are asked for exact names, Count and Iterate here)
+    "dollar": [["a", "$b"], ["a"], ["a", "$b", "c"], ["$a"], ["a", "b$"]],
 }
 GEN = 'CONSTANTS K = 5 Vals = {"v1", "v2"} Depth = %d\nSPECIFICATION GSpec\nCONSTRAINT Dump_\nCHECK_DEADLOCK FALSE\n'
 
@@ -49,6 +52,8 @@ def check(run):
             if name == "deep" and not thorough:
                 continue
             use = seqs if name == "prefix" or thorough else seqs[::4]
+            if name == "dollar" and not thorough:
+                use = seqs[::6]
             for j, h in enumerate(use + sim):
                 if j % 5 == 4:
                     # "exactly the non-empty entries": in every fifth sequence the value v2 is the empty one - an entry that
